@@ -50,6 +50,19 @@ def limbs(v):
     return [v & 0xFFFF, (v >> 16) & 0xFFFF]
 
 
+# value classes of a 32-bit credential word at and above every narrower width boundary (8 / 16 / 31 bits): a reader or writer that keeps
+# fewer bits than the format's 4-byte field is the identity below its boundary and not above it.  The classes that lie above 16 bits come first.
+WIDTH_CLASSES = ("w17", "top", "hi", "ones", "w16max", "w9", "w8max", "lo")
+
+
+def width_value(r, k):
+    """The k-th width class of a 32-bit field (k counts the scenarios of one credential class, so every class meets every width class)."""
+    c = WIDTH_CLASSES[k % len(WIDTH_CLASSES)]
+    x = r.getrandbits(32)
+    return {"w17": 0x10000, "top": 0x80000000 | (x >> 1), "hi": (x | 0x10000) & 0xFFFF0000 | (x & 0xFFFF) or 0x10001, "ones": 0xFFFFFFFF,
+            "w16max": 0xFFFF, "w9": 0x100, "w8max": 0xFF, "lo": x & 0xFFFF}[c]
+
+
 def exc_name(e):
     m = type(e).__module__
     return f"{m}.{type(e).__name__}" if m not in ("builtins",) else type(e).__name__
@@ -647,6 +660,12 @@ def _run_scenario(sc):
         "cI": dict(credA, uuid=uu["d2"], dck="intr", vu=r.getrandbits(32)),                         # genuine, for the intruder's device, his key
         "cE": dict(credA, uuid=bytes(16), dck="intr", rot=(["evil"] + rot[1:]) if ele else ["evil"], used=0, paths=None),  # self-made
     }
+    if sc.get("wk") is not None:   # the credential words at their width boundaries (beacon, vendor usage and SoC usage on different classes)
+        rw = rng(PROP, "widths", sc["id"])
+        credA.update(beacon=width_value(rw, sc["wk"]), vu=width_value(rw, sc["wk"] + 3), socu=width_value(rw, sc["wk"] + 5))
+        socu = credA["socu"]
+        creds = {"cA": credA, "cB": dict(credA, socu=(socu ^ (1 << rw.randrange(32)))), "cI": dict(creds["cI"], beacon=credA["beacon"], socu=socu),
+                 "cE": dict(creds["cE"], beacon=credA["beacon"], vu=credA["vu"], socu=socu)}
     pubs = [D.load_pub(p_) for p_ in paths]         # the twin reads the key of every slot from the file that slot names
 
     # ---- Create (SPSDK): configuration -> object -> sign -> export
@@ -1095,8 +1114,11 @@ def plan(cases, attempts, fams, tier, r, histories=(), announces=()):
     hcyc = {k: r.sample(x, k=len(x)) for k, x in hpool.items()}
     hpos = {k: 0 for k in hpool}
     pos = {True: 0, False: 0}
+    wpos = {}
     for i, sc in enumerate(scs):
         binds = sc["case"]["ver"][0] == 2
+        wkey = (sc["case"]["cls"], sc["case"]["ver"][0])       # credential class: RSA, ECC, enclave (ECC format), signed-message variant
+        sc["wk"] = wpos[wkey] = wpos.get(wkey, -1) + 1
         hk = "msg" if sc["case"]["cls"] == "ele2" else "noobj" if sc["fam"]["fclass"].endswith("-oldrev") else "all"
         hcore = core_histories(sc["case"]["cls"], hk != "all")
         if histories:
@@ -1821,7 +1843,7 @@ def run(tier):
         "families, SRK table on enclave families; for P-521 (2.2) no certificate block exists: the clause is not asserted and RoT table entries are taken to be "
         "SHA-512 digests (64 bytes), the only hash SPSDK's own table names for that key size (no anchor)",
         "DAC root-of-trust hash length per family class is taken from the database flags (based_on_ele, dat_is_using_sha256_always)",
-        "debug key and RoT keys are of the same type; RSA public exponent 65537; beacons are 16-bit values as documented",
+        "debug key and RoT keys are of the same type; RSA public exponent 65537; authentication beacons are 16-bit values as documented; the credential beacon, vendor usage and SoC usage are the 32-bit words of the format (value classes at and above the 8 / 16 / 31-bit boundaries, dealt per credential class)",
         "histories: the host answers through DebugAuthenticateResponse.load_from_config (a new configuration dictionary, or the SAME dictionary again with only "
         "its own `beacon` entry set by the caller), DebugAuthenticateResponse.create (the credential object it holds already) and export() of a response object "
         "it holds already; assigning to attributes of a finished response object (dar.dac = ..., dar.auth_beacon = ...) is not a way of building a response the "
